@@ -82,8 +82,9 @@ func (b *BFT) ProcessDSE(dse ...*DoubleSignEvidence) (results []*lib.DoubleSigne
 		if err != nil {
 			return nil, err
 		}
-		// ensure the evidence isn't expired
-		minEvidenceHeight, err := b.LoadMinimumEvidenceHeight(rootChainId, committeeHeight)
+		// ensure the evidence isn't expired: the minimum is taken at the root height this node is at
+		// (taken at the evidence's own root height it is always below that height, so nothing would ever expire)
+		minEvidenceHeight, err := b.LoadMinimumEvidenceHeight(b.LoadRootChainId(b.Height), b.RootHeight)
 		if err != nil {
 			return nil, err
 		}
